@@ -33,7 +33,7 @@ def main(argv):
     if ids:
         names = [n for n in names if n in ids]
     results = {}
-    res_path = os.path.join(SEEDED, 'RESULTS.json')
+    res_path = os.environ.get('VERIF_SEEDED_RESULTS') or os.path.join(SEEDED, 'RESULTS.json')
     if os.path.exists(res_path):
         results = json.load(open(res_path))
     for name in names:
